@@ -100,8 +100,8 @@ type Obs struct {
 }
 
 func (o *Obs) summary() any {
-	return map[string]any{"inspections": o.Inspections, "saved": o.Saved, "carried": o.Carried, "left_wait": o.Left,
-		"steps": len(o.Trace), "session": o.SessionStatus}
+	return map[string]any{"results_saved": o.NSaved, "asset_refs_carried": o.NTouched, "left_wait": o.Left,
+		"steps": len(o.Trace), "session": o.SessionStatus, "resumes_accepted": o.NResumes}
 }
 
 // ---------------------------------------------------------------------------------------------------
